@@ -30,6 +30,9 @@ enum Kind {
     /// exactly n new records drained as one batch (n around the points where the
     /// allocation-journal image grows by a block), then one more small write
     BatchOf(u16),
+    /// one more write into the same shard before every coordinator round: a write must be
+    /// durable two rounds after it was accepted, whatever arrives in its shard meanwhile
+    Trickle,
 }
 
 #[derive(Clone, Copy, Debug, PartialEq)]
@@ -95,7 +98,7 @@ fn run_case(workers: usize, shard: usize, kind: Kind, nb: Neighbours) -> CaseRes
     }
     // a key for every shard
     let mut key_of: Vec<Vec<Vec<u8>>> = vec![Vec::new(); shards];
-    let want_per_shard = if big { 1101 } else { 2 };
+    let want_per_shard = if big { 1101 } else if kind == Kind::Trickle { 8 } else { 2 };
     let mut i = 0u32;
     while key_of.iter().enumerate().any(|(s, v)| v.len() < if s == shard { want_per_shard } else { 2 }) {
         let k = format!("key-{i}").into_bytes();
@@ -160,6 +163,51 @@ fn run_case(workers: usize, shard: usize, kind: Kind, nb: Neighbours) -> CaseRes
                 st.insert(k, b"burst").unwrap();
                 expect_present.push((k.clone(), b"burst".to_vec()));
             }
+        }
+        Kind::Trickle => {
+            for i in 0..5 {
+                let k = &key_of[shard][i];
+                st.insert(k, b"trickle").unwrap();
+                if i < 3 {
+                    // accepted at least two rounds before the judgement below
+                    expect_present.push((k.clone(), b"trickle".to_vec()));
+                }
+                if let Err(e) = one_round(&sut) {
+                    res.problems.push(format!("C19: {kind:?} on shard {shard} of {workers}: {e}"));
+                    return res;
+                }
+            }
+            // durability of the first three writes is judged on the device as it stands now
+            let log = sut.sess.log.lock().clone();
+            let img = durable_image(&base, &log);
+            let f = TempFile::new("tick-img");
+            std::fs::write(&f.0, &img).unwrap();
+            let s2 = Session::new();
+            s2.clock.store(sut.now(), Ordering::SeqCst);
+            s2.set_flag(F_NO_URING, true);
+            s2.set_flag(F_FORCE_SYNC, true);
+            let mut one = cfg;
+            one.workers = 1;
+            match Sut::open_existing(one, f.path(), s2) {
+                Err(e) => res.problems.push(format!("C19: {kind:?}: the synced image does not reopen: {e:?}")),
+                Ok(mut r) => {
+                    for (i, (k, v)) in expect_present.iter().enumerate() {
+                        if r.store().get(k).ok().as_ref() != Some(v) {
+                            res.problems.push(format!(
+                                "C19: {kind:?} on shard {shard} of {workers}: write {} of a trickle (one write into the shard before every coordinator round) is not on the device {} rounds after it was accepted",
+                                i + 1,
+                                5 - i
+                            ));
+                            break;
+                        }
+                    }
+                    r.close();
+                }
+            }
+            drop(st);
+            sut.close();
+            res.rounds = 2;
+            return res;
         }
         Kind::BatchOf(n) => {
             // nothing is taken by a worker before all n are buffered: one batch of exactly n
@@ -297,7 +345,7 @@ pub fn check(tier: &str, budget_s: f64, report: &mut Report) {
                 if workers == 1 && nb == Neighbours::Busy {
                     continue;
                 }
-                for kind in [Kind::Insert, Kind::Overwrite, Kind::Delete, Kind::Sweep, Kind::InsertAfterFailedBatch] {
+                for kind in [Kind::Insert, Kind::Overwrite, Kind::Delete, Kind::Sweep, Kind::InsertAfterFailedBatch, Kind::Trickle] {
                     cases.push((workers, shard, kind, nb));
                 }
             }
@@ -358,6 +406,7 @@ pub fn debug_case(workers: usize, shard: usize, kind: &str) -> i32 {
     let kind = match kind {
         "burst" => Kind::Burst,
         "fullchannel" => Kind::TickOnFullChannel,
+        "trickle" => Kind::Trickle,
         k if k.starts_with("batch") => Kind::BatchOf(k[5..].parse().unwrap_or(509)),
         "insert" => Kind::Insert,
         "overwrite" => Kind::Overwrite,
